@@ -947,10 +947,10 @@ pub fn exec_in(case: &Case, env: &mut Env) -> Result<ExecOut, String> {
             let region = region_of(env, pos);
             let unchanged = image == env.ref_bytes && key == env.key;
             let append_only = image.len() > env.ref_bytes.len() && image[..env.ref_bytes.len()] == env.ref_bytes[..] && key == env.key;
-            let other_generation = needs_gen2 && key == env.key && image == env.gen2_bytes;
+            let other_generation = needs_gen2 && key == env.key && !env.gen2_bytes.is_empty() && image.len() >= env.gen2_bytes.len() && image[..env.gen2_bytes.len()] == env.gen2_bytes[..];
             if other_generation {
-                // the torn write replaced the WHOLE file by its other generation: that is an intact file of another
-                // value, not a damaged one
+                // the torn write replaced the WHOLE file by its other generation (possibly followed by left-over bytes of
+                // the longer old one): that is an intact file of another value (plus appended bytes), not a damaged one
                 judged = Judged { violation: None, fired: vec![], outcome: "whole-other-generation-not-judged", probes: vec![] };
             } else if unchanged || (append_only && case.prop != "C06") {
                 // the fault turned out to be a no-op (e.g. replaced a byte by itself), or only appended bytes after
